@@ -225,6 +225,7 @@ def build(ctx):
     # the header is fixed when the aggregator is built; results must not grow metrics afterwards (shared default metric list: C15's
     # constructor frame) and queries must not change the loaded table (C20's query frame)
     include_stage(ctx, "C15", only=lambda mod, sub: [sub.unit("ctor_defaults", lambda: mod.unit_ctor_defaults(sub))])
+    include_stage(ctx, "C20", only=lambda mod, sub: [sub.unit("concrete", lambda: mod.unit_concrete(sub))])
     ctx.add_bounded("c18-roundtrip", "c18.bounded")
 
 
